@@ -324,8 +324,14 @@ func buildAndVerify(vc vcase) VObs {
 			dd := ocispec.Descriptor{MediaType: mtB, Digest: digestOf(digest.SHA256, blobB), Size: int64(len(blobB)),
 				Annotations: metaMap(map[string]string{"k1": "v1", "k2": "v1"})}
 			dp, _ := json.Marshal(map[string]interface{}{"targetArtifact": dd})
-			decoy := cachedEnv("decoy|"+vc.format+"|"+string(fx.scheme)+"|"+fx.chainKey, func() []byte {
-				return SignEnvelope(EnvSpec{Format: vc.format, Chain: fx.chain, Scheme: fx.scheme, SigningTime: at(-2), Payload: dp, Agent: "verif-harness/decoy"})
+			// (when the case is about a verification plugin, the earlier signature names the same plugin, without asking for
+			// a minimum version)
+			var dattrs []signature.Attribute
+			if in.Plugin != "none" && in.Plugin != "" {
+				dattrs = pluginAttrs(pluginName, "")
+			}
+			decoy := cachedEnv(fmt.Sprintf("decoy|%s|%s|%s|%v", vc.format, fx.scheme, fx.chainKey, dattrs != nil), func() []byte {
+				return SignEnvelope(EnvSpec{Format: vc.format, Chain: fx.chain, Scheme: fx.scheme, SigningTime: at(-2), Payload: dp, Agent: "verif-harness/decoy", ExtAttrs: dattrs})
 			})
 			dd.Annotations = nil
 			if in.API == "Verify" {
@@ -504,6 +510,11 @@ func newVFixture(in VIn, scheme signature.SigningScheme, vc vcase) *vfixture {
 	}
 	if in.RevVec != nil && fx.chainKey == "good3" {
 		fx.chainKey = fmt.Sprintf("good%d", len(in.RevVec.Vec))
+		if len(in.RevVec.Vec) >= 2 && vc.sigMut%4 == 3 {
+			// a signing certificate WITHOUT a subject (identified by a subject alternative name only): legal, and revocation
+			// results about it count like any other
+			fx.chainKey = fmt.Sprintf("nosubj%d", len(in.RevVec.Vec))
+		}
 	}
 	if fx.chain == nil {
 		fx.chain = stdChainByKey(fx.chainKey)
@@ -532,7 +543,7 @@ func newVFixture(in VIn, scheme signature.SigningScheme, vc vcase) *vfixture {
 	if in.DN == nil {
 		if in.Identity == "noMatch" {
 			fx.identities = []string{"x509.subject: C=US, ST=WA, O=Verif, CN=somebody-else"}
-		} else if vc.baseIdx%2 == 0 {
+		} else if vc.baseIdx%2 == 0 || strings.HasPrefix(fx.chainKey, "nosubj") {
 			fx.identities = []string{"*"}
 		} else {
 			fx.identities = []string{"x509.subject: " + fx.chain.Leaf().Subject.String()}
@@ -647,6 +658,13 @@ func stdChainByKey(key string) *Chain {
 		switch key {
 		case "good1", "good2", "good3", "good4":
 			return StdChain("signer"+key[4:], int(key[4]-'0'), EC256)
+		case "nosubj2", "nosubj3", "nosubj4":
+			n := int(key[6] - '0')
+			specs := []CertSpec{{RawSubject: []byte{0x30, 0x00}, DNSNames: []string{"signer.verif.example"}}}
+			for i := 1; i < n; i++ {
+				specs = append(specs, CertSpec{Subject: name(fmt.Sprintf("nosubj-ca%d", i))})
+			}
+			return NewChain(specs)
 		case "unrelated3":
 			return StdChain("unrelated", 3, EC256)
 		case "expiredLeaf3":
